@@ -27,7 +27,11 @@ def main():
         res = {"equiv_pristine_rc": r0.returncode, "equiv_patched_rc": r1.returncode,
                "same_output": r0.stdout == r1.stdout, "digest": hashlib.sha256(r0.stdout.encode()).hexdigest()[:16],
                "output_bytes": len(r0.stdout)}
-        ok = r0.returncode == 0 and r1.returncode == 0 and r0.stdout == r1.stdout and len(r0.stdout) > 0
+        # behaviour preservation = identical non-empty output and identical exit status with and without the patch.  (A script whose own
+        # oracle of the property disagrees with the current /repo - e.g. written before a later fix: commit - exits 1 on both sides; that
+        # is recorded as oracle_rc and does not affect the comparison.)
+        ok = r0.returncode == r1.returncode and r0.stdout == r1.stdout and len(r0.stdout) > 0
+        res["oracle_rc"] = r0.returncode
         if run_tests:
             base = json.load(open("/root/.vp/BASELINE.json"))
             out = os.path.join(tmp, "junit.xml")
